@@ -10,7 +10,7 @@
  "matrix": {"SHA_PART": [0, 1, 2, 3]},
  "loop_contracts": false,
  "backend": "kissat",
- "tier": "thorough",
+ "tier": "experimental",
  "timeout": 600, "thorough_timeout": 600,
  "assumptions": [
                  "STATUS: UNDECIDED in this sandbox -- every cut-point obligation discharges in 0.3-8 s when checked alone (cbmc --property X, measured for all classes), but the driver checks all obligations of a group in one solver query, which does not finish in 50 min (default SAT and kissat, also with 16 one-stage instances)",
